@@ -6,7 +6,7 @@
     version x layer x protection x bitrate index x rate index x padding x mode product; other formats: field-extreme
     lattices + random fields.  All /repo/tests/data samples of the modelled formats go through impl vs model.
 (V) vm_compute cross-check shard of the extracted binary."""
-import io, os, sys, struct, itertools, zlib, math
+import io, os, sys, struct, itertools, zlib, math, json
 from fractions import Fraction
 from common import zs, zp, hx, unhx, coq_bytes, vm_shard, REPO
 
@@ -1275,6 +1275,283 @@ def flac_write_case(ctx, p):
     return True
 
 
+# ---- AAC ADIF (ISO/IEC 13818-7 adif_header + program_config_element) -----------------------------------
+AAC_FREQS = [96000, 88200, 64000, 48000, 44100, 32000, 24000, 22050, 16000, 12000, 11025, 8000, 7350]
+# the defect reported for the unchanged tree: adif_buffer_fullness precedes EVERY program config element of a constant-rate
+# header, AACInfo._parse_adif skips it only before the first one (C05_adif_cbr_multi_pce_refuted).  While False the parameter
+# oracle does not judge the position-derived length (and a rejection) of constant-rate headers with more than one program.
+ADIF_CBR_MULTI_PCE_STRICT = False
+
+
+class BitW:
+    """independent MSB-first bit writer (reference for the extracted builder)"""
+
+    def __init__(self):
+        self.v, self.n = 0, 0
+
+    def put(self, value, width):
+        assert 0 <= value < (1 << width), (value, width)
+        self.v = (self.v << width) | value
+        self.n += width
+
+    def align(self):
+        self.put(0, -self.n % 8)
+
+    def bytes(self):
+        self.align()
+        return self.v.to_bytes(self.n // 8, "big")
+
+
+def adif_ref_bytes(P):
+    cid, orig, home, bst, bitrate, full, pces, tail, id3 = P
+    w = BitW()
+    if cid is None:
+        w.put(0, 1)
+    else:
+        w.put(1, 1)
+        for c in bytes.fromhex(cid):
+            w.put(c, 8)
+    w.put(orig, 1), w.put(home, 1), w.put(bst, 1), w.put(bitrate, 23), w.put(len(pces) - 1, 4)
+    for tag, ot, sfi, front, side, back, lfe, assoc, cc, mono, stereo, matrix, comment in pces:
+        if bst == 0:
+            w.put(full, 20)
+        w.put(tag, 4), w.put(ot, 2), w.put(sfi, 4), w.put(len(front), 4), w.put(len(side), 4), w.put(len(back), 4)
+        w.put(len(lfe), 2), w.put(len(assoc), 3), w.put(len(cc), 4)
+        for o, n in ((mono, 4), (stereo, 4), (matrix, 3)):
+            if o is None:
+                w.put(0, 1)
+            else:
+                w.put(1, 1), w.put(o, n)
+        for e in front + side + back:
+            w.put(e >> 4, 1), w.put(e & 15, 4)
+        for e in lfe + assoc:
+            w.put(e, 4)
+        for e in cc:
+            w.put(e >> 4, 1), w.put(e & 15, 4)
+        w.align()
+        cb = bytes.fromhex(comment)
+        w.put(len(cb), 8)
+        for c in cb:
+            w.put(c, 8)
+    return b"ADIF" + w.bytes() + bytes(tail)
+
+
+def adif_args(P, with_tail=True):
+    cid, orig, home, bst, bitrate, full, pces, tail, id3 = P
+    o = lambda v: "-" if v is None else zs(v)
+    toks = []
+    for tag, ot, sfi, front, side, back, lfe, assoc, cc, mono, stereo, matrix, comment in pces:
+        toks.append(":".join([zs(tag), zs(ot), zs(sfi), hx(bytes(front)), hx(bytes(side)), hx(bytes(back)), hx(bytes(lfe)), hx(bytes(assoc)),
+                              hx(bytes(cc)), o(mono), o(stereo), o(matrix), "x" + comment]))
+    return ["-" if cid is None else "x" + cid, orig, home, bst, bitrate, full] + ([hx(bytes(tail))] if with_tail else []) + toks
+
+
+def id3_prefix(n):
+    return b"ID3\x04\x00\x00" + bytes([(n >> 21) & 127, (n >> 14) & 127, (n >> 7) & 127, n & 127]) + b"\x00" * n
+
+
+def aac_impl(file):
+    import mutagen.aac
+    i = mutagen.aac.AAC(io.BytesIO(file)).info
+    return {"sample_rate": i.sample_rate, "channels": i.channels, "bitrate": i.bitrate, "length": i.length, "type": i._type}
+
+
+def adif_spec(P):
+    cid, orig, home, bst, bitrate, full, pces, tail, id3 = P
+    tag, ot, sfi, front, side, back, lfe = pces[0][:7]
+    r = {"type": "ADIF", "sample_rate": AAC_FREQS[sfi] if sfi < len(AAC_FREQS) else 0,
+         "channels": sum(1 + (e >> 4) for e in front + side + back) + len(lfe), "bitrate": bitrate}
+    if bst == 1 or len(pces) == 1 or ADIF_CBR_MULTI_PCE_STRICT:
+        r["length"] = fdiv(8 * tail, bitrate) if bitrate else 0
+    return r
+
+
+def adif_case(ctx, P, tag, cut=None):
+    """P = [copyright id hex | None, original_copy, home, bitstream_type, bitrate, buffer fullness, [pce...], tail bytes, id3 bytes | 0]
+       pce = [tag, object_type, sfi, front, side, back, lfe, assoc, cc, mono | None, stereo | None, matrix | None, comment hex]
+       cut: truncate the file to that many bytes (malformed stream: outcome compared with the model only)"""
+    cid, orig, home, bst, bitrate, full, pces, tail, id3 = P
+    b = mbuild(ctx, "adif", *adif_args(P))
+    slug = {"fmt": "adif", "params": P}
+    ctx.corr_cases += 1
+    ctx.count("adif:" + tag)
+    if b != adif_ref_bytes(P):
+        ctx.disagree("c05.adif", "extracted builder differs from the reference bit writer on %r" % (P,), slug)
+    file = (id3_prefix(id3) if id3 else b"") + b
+    if cut is not None:
+        file = file[:cut]
+        slug = dict(slug, cut=cut)
+    st, impl = run_impl(lambda: aac_impl(file))
+    mst, mv = mdecode(ctx, "adif", file)
+    valid = cut is None and pces[0][2] < len(AAC_FREQS)
+    ctx.case(("adif", json_key(P), cut), dict(slug, impl=impl if st == "raise" else {k: (v.hex() if isinstance(v, float) else v) for k, v in impl.items()})
+             if ctx.evaluations % 499 == 0 else None)
+    if mst == "raise" and mv == "NotImplementedError":
+        return True                 # no "ADIF" at the start (truncated below 4 bytes): the ADTS scanner, outside the model
+    if mst == "error":
+        ctx.disagree("c05.adif", "model error on %r: %s" % (P, mv), slug)
+    elif st != mst or (st == "raise" and impl != mv):
+        ctx.disagree("c05.adif", "outcome differs on %r cut=%r: impl %s %s, model %s %s" % (P, cut, st, impl if st == "raise" else "", mst, mv), slug)
+    elif st == "ok":
+        md = dict(zip(["sample_rate", "channels", "bitrate", "ln", "ld"], mv))
+        ref = {k: md[k] for k in ("sample_rate", "channels", "bitrate")}
+        ref["length"] = fdiv(md["ln"], md["ld"]) if md["bitrate"] else 0
+        ref["type"] = "ADIF"
+        bad = cmp_dicts(impl, ref)
+        if bad:
+            ctx.disagree("c05.adif", "impl vs model on %r cut=%r: %s" % (P, cut, "; ".join(bad)), slug)
+    if cut is not None:
+        return True
+    # parameter oracle
+    ctx.oracle_cases += 1
+    if st != "ok":
+        if bst == 0 and len(pces) > 1 and not ADIF_CBR_MULTI_PCE_STRICT:
+            ctx.count("adif:cbr-multi-pce-rejected(reported defect)")
+            return True
+        ctx.violation("oracle", "adif: valid header not loaded (%s)" % impl, dict(slug, **{"class": "aac-adif-rejected"}))
+        return False
+    bad = cmp_dicts(impl, adif_spec(P))
+    if bad:
+        ctx.violation("oracle", "adif: reported attributes differ from the header: %s" % ", ".join(sorted(x.split(":")[0] for x in bad)),
+                      dict(slug, **{"class": "aac-adif-mismatch", "detail": bad, "bitstream_type": bst, "pces": len(pces)}))
+        return False
+    return True
+
+
+def json_key(x):
+    if isinstance(x, list):
+        return tuple(json_key(y) for y in x)
+    return x
+
+
+ADIF_LAYOUTS = [([0], [], [], []), ([16], [], [], []), ([1, 18], [], [], []), ([0, 17], [], [18], [3]), ([0, 17], [18], [19], [0]),
+                ([0, 17, 18], [19, 4], [21, 6, 23], [1, 2, 3]), ([], [], [], []),
+                (list(range(16, 31)), list(range(15)), [16 + (i * 7) % 16 if i % 2 else i for i in range(15)], [15, 0, 7])]
+ADIF_CID = "ff0102030405060780"
+
+
+def adif_rand_pce(rng, sfi=None, layout=None, small=False):
+    if layout is None:
+        k = (lambda: rng.choice([0, 0, 1, 2, 3])) if small else (lambda: rng.choice([0, 1, 2, 3, 7, 15]))
+        layout = tuple([rng.randrange(32) for _ in range(k())] for _ in range(3)) + ([rng.randrange(16) for _ in range(rng.randrange(4))],)
+    front, side, back, lfe = layout
+    opt = lambda bits: rng.choice([None, None, 0, (1 << bits) - 1, rng.randrange(1 << bits)])
+    return [rng.randrange(16), rng.randrange(4), rng.randrange(13) if sfi is None else sfi, list(front), list(side), list(back), list(lfe),
+            [rng.randrange(16) for _ in range(rng.choice([0, 0, 1, 7]))], [rng.randrange(32) for _ in range(rng.choice([0, 0, 1, 15]))],
+            opt(4), opt(4), opt(3), bytes(rng.randrange(256) for _ in range(rng.choice([0, 0, 1, 5]))).hex()]
+
+
+def adif_rand(rng, **kw):
+    P = [rng.choice([None, ADIF_CID]), rng.randrange(2), rng.randrange(2), rng.randrange(2), rng.choice([0, 1, 64000, 128000, 2 ** 23 - 1, rnd(rng, 23)]),
+         rng.choice([0, 1, 2 ** 20 - 1, rng.randrange(2 ** 20)]), None, rng.choice([0, 1, 100, 1000]), 0]
+    n_extra = rng.choice([0, 0, 0, 1, 2])
+    P[6] = [adif_rand_pce(rng)] + [adif_rand_pce(rng, small=True) for _ in range(n_extra)]
+    names = ["cid", "orig", "home", "bst", "bitrate", "full", "pces", "tail", "id3"]
+    for k, v in kw.items():
+        P[names.index(k)] = v
+    return P
+
+
+class _Enough(Exception):
+    pass
+
+
+def run_adif(ctx, n_random):
+    """stops after a handful of failing inputs (one changed line makes most of the domain fail)"""
+    before = len(ctx.violations)
+    real = adif_case
+
+    def adif_case_capped(ctx, P, tag, cut=None):
+        r = real(ctx, P, tag, cut)
+        if len(ctx.violations) > before + 4:
+            raise _Enough()
+        return r
+    try:
+        _run_adif(ctx, n_random, adif_case_capped)
+    except _Enough:
+        pass
+
+
+def _run_adif(ctx, n_random, adif_case):
+    rng = ctx.rng
+    # (1) copyright id x bitstream type x every sampling frequency index x channel layouts x one / three programs
+    for cid in (None, ADIF_CID):
+        for bst in (0, 1):
+            for sfi in range(13):
+                for lay in ADIF_LAYOUTS:
+                    for extra in (0, 2):
+                        P = adif_rand(rng, cid=cid, bst=bst)
+                        P[6] = [adif_rand_pce(rng, sfi=sfi, layout=lay)] + [adif_rand_pce(rng, small=True) for _ in range(extra)]
+                        adif_case(ctx, P, "product")
+    # (2) every value of the small fields, the lattice of the wide ones, for both bitstream types
+    for bst in (0, 1):
+        for v in lat(23):
+            adif_case(ctx, adif_rand(rng, bst=bst, bitrate=v), "bitrate")
+        for v in lat(20):
+            adif_case(ctx, adif_rand(rng, bst=bst, full=v), "fullness")
+        for which in range(3):
+            for n in range(16):
+                for cpe in (0, 16, None):
+                    lay = [[], [], [], [rng.randrange(16) for _ in range(rng.randrange(4))]]
+                    lay[which] = [(rng.choice([0, 16]) if cpe is None else cpe) + rng.randrange(16) for _ in range(n)]
+                    P = adif_rand(rng, bst=bst)
+                    P[6] = [adif_rand_pce(rng, layout=tuple(lay))] + P[6][1:]
+                    adif_case(ctx, P, "element-counts")
+        for nlfe in range(4):
+            for nassoc in range(8):
+                for ncc in (0, 1, 2, 7, 8, 15):
+                    P = adif_rand(rng, bst=bst)
+                    pc = adif_rand_pce(rng)
+                    pc[6], pc[7], pc[8] = [rng.randrange(16) for _ in range(nlfe)], [rng.randrange(16) for _ in range(nassoc)], [rng.randrange(32) for _ in range(ncc)]
+                    P[6] = [pc] + P[6][1:]
+                    adif_case(ctx, P, "lfe-assoc-cc")
+        for mono in (None, 0, 15):
+            for stereo in (None, 0, 15):
+                for matrix in (None, 0, 7):
+                    for clen in (0, 1, 2, 255):
+                        P = adif_rand(rng, bst=bst)
+                        pc = adif_rand_pce(rng)
+                        pc[9], pc[10], pc[11], pc[12] = mono, stereo, matrix, bytes(rng.randrange(256) for _ in range(clen)).hex()
+                        P[6] = [pc] + P[6][1:]
+                        P[7] = max(P[7], 1)
+                        adif_case(ctx, P, "mixdown-comment")
+        for tagv in range(16):
+            for ot in range(4):
+                P = adif_rand(rng, bst=bst)
+                P[6][0][0], P[6][0][1] = tagv, ot
+                adif_case(ctx, P, "tag-object-type")
+        for npce in range(16):
+            P = adif_rand(rng, bst=bst)
+            P[6] = [adif_rand_pce(rng)] + [adif_rand_pce(rng, small=True) for _ in range(npce)]
+            adif_case(ctx, P, "num-pce")
+        for orig in (0, 1):
+            for home in (0, 1):
+                for cid in (None, ADIF_CID, "00" * 9, "ff" * 9):
+                    for id3 in (0, 1, 127, 128, 300):
+                        adif_case(ctx, adif_rand(rng, bst=bst, orig=orig, home=home, cid=cid, id3=id3), "flags-id3")
+    for _ in range(n_random):
+        adif_case(ctx, adif_rand(rng), "random")
+    # (3) malformed: reserved sampling frequency indices, truncated headers, a comment length reaching past the end of the file
+    for sfi in (13, 14, 15):
+        for bst in (0, 1):
+            P = adif_rand(rng, bst=bst)
+            P[6][0][2] = sfi
+            adif_case(ctx, P, "reserved-sfi")
+    for _ in range(6):
+        P = adif_rand(rng, tail=3, id3=0)
+        n = len(adif_ref_bytes(P))
+        for c in sorted(set(range(4, min(n, 40))) | {n - 4, n - 3, n - 2, n - 1}):
+            if 4 <= c < n:
+                adif_case(ctx, P, "truncated", cut=c)
+    for clen in (1, 2, 200, 255):
+        for tail in (0, 1, 5):
+            P = adif_rand(rng, tail=0, id3=0)
+            P[6] = [P[6][0]]
+            P[6][0][12] = "ab" * clen
+            n = len(adif_ref_bytes(P))
+            adif_case(ctx, P, "comment-past-end", cut=n - clen + tail)
+
+
 # ---- invalid headers ------------------------------------------------------------------------------
 def invalid_cases(ctx):
     """reserved / zero values the code rejects: implementation and model must both reject"""
@@ -1643,6 +1920,7 @@ def run(ctx):
     run_mpeg(ctx)
     run_vbr(ctx, 400 if ctx.thorough else 80)
     run_generic(ctx, 120 if ctx.thorough else 25)
+    run_adif(ctx, 2000 if ctx.thorough else 300)
     F = BYNAME["flac"]
     for p in itertools.islice(F.params_lattice(ctx.rng), 0, None, 1 if ctx.thorough else 3):
         flac_write_case(ctx, p)
@@ -1656,6 +1934,7 @@ def search(ctx, broken):
     run_mpeg(ctx)
     run_vbr(ctx, 600)
     run_generic(ctx, 300, stop_on_violation=True)
+    run_adif(ctx, 3000)
     F = BYNAME["flac"]
     for p in F.params_lattice(ctx.rng):
         if not flac_write_case(ctx, p):
@@ -1669,6 +1948,8 @@ def replay(ctx, payload):
         run(ctx)
         return bool(ctx.violations or ctx.disagreements)
     fm = d["fmt"]
+    if fm == "adif":
+        return not adif_case(ctx, d["params"], "replay", cut=d.get("cut"))
     p = [int(x) for x in d["params"]]
     if fm == "mpeg":
         return not mpeg_case(ctx, Mpeg(), p, "replay")
